@@ -14,14 +14,14 @@ RULE = (
     "every configuration runs the whole client stack (EPM bind + ept_map, ISD_KEY bind with authentication, sealed GetKey with verification trailer, reply decoding, en/decryption) against the in-process "
     "reference DC over the in-memory transport: blob position in {0,1,15,30,31}^2, DC 'now' in 5 positions (protect), 4 KDF hashes x reply kind {seed keys, DH, ECDH_P256, ECDH_P384 public key}, SID shapes n=1..15 "
     "(SD length residues), domain/forest name lengths 0..8 (reply length residues / auth padding 0,4,8,12), root key id {named, not named}, {sync, async on the virtual loop}; security context: real NTLM both ends "
-    "and the scripted context (byte-exact sync/async comparison). quick: each dimension varied around a base + full (hash x kind x op x api) product; thorough: full product of (position x hash x kind x api) with the "
+    "and the scripted context (byte-exact sync/async comparison); shape of the conforming DC: L2 key omitted at L2'=31, covering policy {exact, later, end of L1}, alloc_hint convention, extra / non-zero auth padding, non-zero auth_reserved, header signing refused, dynamic port {1, 49664, 65535}, 1-2 authentication legs. quick: every configuration with at most two deviations from the base; each dimension varied around a base + full (hash x kind x op x api) product; thorough: full product of (position x hash x kind x api) with the "
     "others cycled. Oracle on the transcript decoded by the DC: connection 1 -> port 135, bind offers EPM/NDR64, ept_map (opnum 3) on the accepted context with a tower naming ISD_KEY over TCP/IP; connection 2 -> "
     "exactly the port the reply named, bind offers ISD_KEY/NDR64, auth type = NTLM, level PKT_PRIVACY; GetKey (opnum 0) on the accepted context whose unsealed stub == reference NDR64 encoding of "
     "(SD(sid), root key id|NULL, l0,l1,l2 of the blob | -1,-1,-1) followed at the 4-byte boundary by VT{PCONTEXT(ISD_KEY,NDR64),END}. Results: unprotect == plaintext (seed keys) / ValueError (public key); protect "
     "opens with the reference decryptor and names the DC's current key. sync and async: identical transcripts (scripted: identical bytes) and results. state = configuration; transition = one PDU exchange."
 )
 ASSUME = ["reference DC = my reading of MS-GKDI / MS-RPCE, calibrated on the captured material", "pyspnego NTLM for the authenticated runs"]
-BOUND = {"quick": "one-at-a-time around a base + (hash x kind x op x api) product", "thorough": "(25 positions x 4 hashes x 4 kinds x op x api), other dimensions cycled"}
+BOUND = {"quick": "every configuration with <= 2 deviations from the base over 19 dimensions (10 of the caller / key configuration, 9 of the conforming DC's shape; 39 alternative values) + (hash x kind x op x api) product", "thorough": "<= 3 deviations over the same 19 dimensions; (25 positions x 4 hashes x 4 kinds x op x api), other dimensions cycled"}
 
 HASHES = ["SHA1", "SHA256", "SHA384", "SHA512"]
 KINDS = ["seed", "DH", "ECDH_P256", "ECDH_P384"]
@@ -46,6 +46,22 @@ class Cfg(t.NamedTuple):
     named: bool
     sec: str
     sig: int = 16
+    dc: t.Tuple[t.Tuple[str, t.Any], ...] = ()  # shape of the (conforming) DC: knob -> value, see env/refdc.py
+
+
+# every way in which a conforming server, the caller's arguments or the key configuration may depart from the base configuration
+DEVIATIONS: t.Dict[str, t.List[t.Any]] = {
+    "op": ["protect"], "hash": ["SHA1", "SHA384", "SHA512"], "kind": ["DH", "ECDH_P256", "ECDH_P384"], "pos": [(0, 0), (31, 31), (0, 31), (31, 0), (15, 31)],
+    "now": [(0, 0), (31, 31), (0, 31), (3, 31)], "nsub": [1, 15], "namelen": [0, 1, 8], "named": [False], "sec": ["ntlm"], "sig": [28, 76],
+    "dc.l2_at_31": [False], "dc.cover": ["later", "l1end"], "dc.reply_alloc_hint": ["unpadded", "zero", "16", "max"], "dc.reply_pad_extra": [1], "dc.reply_pad_fill": [0xE7],
+    "dc.reply_reserved": [0xFF], "dc.header_sign": [False], "dc.isd_port": [1, 65535], "dc.server_legs": [2],
+}
+
+
+def deviate(c: Cfg, dim: str, val: t.Any) -> Cfg:
+    if dim.startswith("dc."):
+        return c._replace(dc=tuple(sorted(dict(c.dc, **{dim[3:]: val}).items())))
+    return c._replace(**{dim: val})
 
 
 BASE = Cfg("unprotect", "sync", "SHA256", "seed", (3, 5), (10, 12), 4, 11, True, "scripted")
@@ -63,14 +79,20 @@ def run_cfg(seed: int, c: Cfg):
     dom = "d" * c.namelen
     d = seams.Drbg(("C17blob", seed, c.pos, c.nsub, c.namelen))
     now = (L0, c.now[0], c.now[1])
-    dc = refdc.DC([rk], now=now if c.op == "protect" else (L0, 31, 31), authorised=c.kind == "seed", domain=dom, forest=dom, sec=c.sec, sig_size=c.sig)
+    shape = dict(c.dc)
+    dc = refdc.DC([rk], now=now if c.op == "protect" else (L0, 31, 31), authorised=c.kind == "seed", domain=dom, forest=dom, sec=c.sec, sig_size=c.sig,
+                  cover=shape.pop("cover", "exact"), header_sign=shape.pop("header_sign", True), isd_port=shape.pop("isd_port", refdc.ISD_PORT))
+    legs = shape.get("server_legs", 1)
+    for k_, v_ in shape.items():
+        assert hasattr(dc, k_), k_
+        setattr(dc, k_, v_)
     blob = cms.ref_encrypt(rk, sid, PT, (L0, c.pos[0], c.pos[1]), cek=d.bytes(32), gcm_nonce_=d.bytes(12), key_nonce=d.bytes(32), domain=dom, forest=dom)
     user, pw = (secctx.NTLM_USER, secctx.NTLM_PASS) if c.sec == "ntlm" else ("u", "p")
     kw = dict(server="dc.verif.test", username=user, password=pw, auth_protocol="ntlm")
     ent = seams.Entropy(b"C17")
     import contextlib
 
-    cm = secctx.scripted_client(lambda u, p, **k: secctx.ScriptedContext([b"C1"], c.sig)) if c.sec == "scripted" else contextlib.nullcontext()
+    cm = secctx.scripted_client(lambda u, p, **k: secctx.ScriptedContext([b"C%d" % (i + 1) for i in range(legs)], c.sig)) if c.sec == "scripted" else contextlib.nullcontext()
     with transport.network(dc) as hub, cm, seams.entropy(ent) if c.sec == "scripted" else contextlib.nullcontext():
         try:
             if c.op == "unprotect":
@@ -198,6 +220,18 @@ def configs(tier: str) -> t.List[Cfg]:
         cs.append(BASE._replace(sig=sg, op="protect", kind="DH"))
     cs.append(BASE._replace(op="protect", named=False))
     cs.append(BASE._replace(op="protect", named=False, kind="DH"))
+    # every configuration that departs from the base in at most two dimensions (all single deviations, all pairs)
+    alts = [(dim, v) for dim, vals in DEVIATIONS.items() for v in vals if dim != "op"]
+    for base in (BASE, BASE._replace(op="protect")):  # both operations; the operation does not count as a deviation
+        for dim, v in alts:
+            cs.append(deviate(base, dim, v))
+        for (d1, v1), (d2, v2) in itertools.combinations(alts, 2):
+            if d1 != d2:
+                cs.append(deviate(deviate(base, d1, v1), d2, v2))
+        if tier == "thorough":
+            for (d1, v1), (d2, v2), (d3, v3) in itertools.combinations(alts, 3):
+                if len({d1, d2, d3}) == 3:
+                    cs.append(deviate(deviate(deviate(base, d1, v1), d2, v2), d3, v3))
     if tier == "thorough":
         i = 0
         for pos, h, k, op in itertools.product(itertools.product(POSV, POSV), HASHES, KINDS, ("unprotect", "protect")):
@@ -261,7 +295,7 @@ def replay(case, seed, acc) -> None:
     seams.block_network()
     secctx.ntlm_setup()
     v = case[1]
-    c = Cfg(v[0], v[1], v[2], v[3], tuple(v[4]), tuple(v[5]), v[6], v[7], v[8], v[9], v[10] if len(v) > 10 else 16)
+    c = Cfg(v[0], v[1], v[2], v[3], tuple(v[4]), tuple(v[5]), v[6], v[7], v[8], v[9], v[10] if len(v) > 10 else 16, tuple((k_, v_) for k_, v_ in v[11]) if len(v) > 11 else ())
     if c.sec == "scripted":
         judge(acc, seed, c._replace(sig=76 if c.sig != 76 else 16))  # a connection with another signature size first (cross-connection state)
         acc.violations.clear()
